@@ -100,9 +100,9 @@ pub fn profile(prop: &str, thorough: bool) -> Profile {
         "C05" => Profile { name: "C05", fams: vec![Fam::TryJoin], nested_pct: 10, err_pct: 30, big_lens: bigs, big_pct: 4, max_n: 16, ..base },
         "C06" => Profile { name: "C06", fams: vec![Fam::Race], nested_pct: 10, never_pct: 20, big_lens: bigs, big_pct: 3, max_n: 16, ..base },
         "C07" => Profile { name: "C07", fams: vec![Fam::RaceOk], nested_pct: 10, err_pct: 75, big_lens: bigs, big_pct: 3, max_n: 16, ..base },
-        "C08" => Profile { name: "C08", fams: vec![Fam::Merge], nested_pct: 10, max_items: 6, big_lens: bigs, big_pct: 3, max_n: 12, ..base },
-        "C09" => Profile { name: "C09", fams: vec![Fam::Zip], nested_pct: 10, max_items: 5, big_lens: bigs, big_pct: 3, max_n: 10, ..base },
-        "C10" => Profile { name: "C10", fams: vec![Fam::Chain], nested_pct: 10, max_items: 4, big_lens: bigs, big_pct: 2, max_n: 10, ..base },
+        "C08" => Profile { name: "C08", fams: vec![Fam::Merge], nested_pct: 10, max_items: 6, big_lens: bigs, big_pct: 5, max_n: 12, ..base },
+        "C09" => Profile { name: "C09", fams: vec![Fam::Zip], nested_pct: 10, max_items: 5, big_lens: bigs, big_pct: 5, max_n: 10, ..base },
+        "C10" => Profile { name: "C10", fams: vec![Fam::Chain], nested_pct: 10, max_items: 4, big_lens: bigs, big_pct: 6, max_n: 10, ..base },
         "C16" => Profile { name: "C16", fams: vec![Fam::Join, Fam::TryJoin, Fam::Merge, Fam::Zip, Fam::FGroup, Fam::SGroup], spurious: 6, err_pct: 15, big_lens: bigs, big_pct: 6, max_n: 12, ..base },
         "C17" => Profile { name: "C17", fams: vec![Fam::Merge], conts: vec![Cont::Tuple, Cont::Array, Cont::Vec, Cont::Ext], nested_pct: 0, always_ready: true, never_pct: 10, max_items: 8, max_n: 12, ..base },
         "C19" => Profile { name: "C19", fams: vec![Fam::WaitF, Fam::WaitS], nested_pct: 15, spurious: 5, ..base },
@@ -247,6 +247,9 @@ pub fn gen_case(w: &mut World, p: &Profile) -> CaseA {
         }
     }
     let always = if p.always_ready && nl > 0 { Some(w.below(nl)) } else { None };
+    let bulk: Option<usize> = if nl >= 16 && !p.small && w.chance(50) { Some(w.below(3)) } else { None };
+    // ... except for up to three children at random positions, which keep their random scripts
+    let bulk_except: Vec<usize> = if bulk.is_some() { (0..w.below(4)).map(|_| w.below(nl)).collect() } else { vec![] };
     let mut leaves = vec![];
     for (i, (stream, fam, idx)) in kinds.iter().enumerate() {
         // Ok/Err only matters where the family looks at it; elsewhere it is exercised at a low rate
@@ -260,6 +263,21 @@ pub fn gen_case(w: &mut World, p: &Profile) -> CaseA {
             continue;
         }
         let mut script = gen_script(w, p, *stream, never[i], err_pct);
+        // large containers: in half of the cases most children share one degenerate script (all inputs empty, all
+        // ready at once, all failing, all pending exactly once): long runs of inputs that end / resolve inside a
+        // single poll of the combinator are otherwise vanishingly rare
+        if let Some(class) = bulk {
+            if !never[i] && !bulk_except.contains(&i) {
+                script = match (*stream, class) {
+                    (true, 0) => vec![Step::End],
+                    (true, 1) => vec![Step::Item, Step::End],
+                    (true, _) => vec![Step::PendLater, Step::End],
+                    (false, 0) => vec![Step::Ok],
+                    (false, 1) => vec![if w.chance(err_pct) { Step::Err } else { Step::Ok }],
+                    (false, _) => vec![Step::PendLater, Step::Ok],
+                };
+            }
+        }
         // C19: the inner stream of a (flat) wait_until may be non-fused; the executor then polls on after `None`
         // and wait_until has to stay a transparent view of it
         let resumable = !p.small && shape.fam == Fam::WaitS && !shape.nested() && *idx == 0 && *fam == Fam::WaitS && !never[i] && w.chance(30);
